@@ -345,6 +345,146 @@ def build_ih(tuples, route='from_labels', go=False, kinds=None):
     raise ValueError(route)
 
 
+GO_START_ROUTES = ['from_labels', 'from_product', 'from_tree', 'selection', 'static_to_go', 'static_product_to_go', 'copy', 'go_of_go',
+                   'type_blocks']
+
+
+def product_levels(tuples):
+    levels = []
+    for d in range(len(tuples[0])):
+        seen, labs = set(), []
+        for t in tuples:
+            if H(t[d]) not in seen:
+                seen.add(H(t[d]))
+                labs.append(t[d])
+        levels.append(labs)
+    return levels
+
+
+def build_go_start(tuples, route, depth):
+    """An IndexHierarchyGO holding `tuples`, reached by `route`, plus the objects that must stay unchanged while it
+    grows: the static index it was converted from, the GO it was copied from, a copy taken before the growth.
+    Routes needing a product fall back to from_labels when the tuples are not a product."""
+    sf = sf_mod()
+    GO, ST = sf.IndexHierarchyGO, sf.IndexHierarchy
+    keep = []
+    if not tuples:
+        go = GO.from_labels((), depth_reference=depth)
+        return go, keep
+    prod = is_product([HT(t) for t in tuples])
+    if route in ('from_product', 'static_product_to_go') and not prod:
+        route = 'from_labels' if route == 'from_product' else 'static_to_go'
+    if route == 'from_labels':
+        go = GO.from_labels(tuples)
+    elif route == 'from_product':
+        go = GO.from_product(*product_levels(tuples))
+    elif route == 'from_tree':
+        go = GO.from_tree(tuples_to_tree(tuples))
+    elif route == 'type_blocks':
+        go = build_ih(tuples, 'type_blocks', go=True)
+    elif route == 'selection':
+        static = ST.from_labels(tuples)
+        sel = static.iloc[list(range(len(tuples)))]       # rebuilt through _from_type_blocks
+        go = GO(sel)
+        keep += [('static source', static), ('selection', sel)]
+    elif route == 'static_to_go':
+        static = ST.from_labels(tuples)
+        go = GO(static)
+        keep.append(('static source', static))
+    elif route == 'static_product_to_go':
+        static = ST.from_product(*product_levels(tuples))
+        go = GO(static)
+        keep.append(('static source', static))
+    elif route == 'copy':
+        g0 = GO.from_product(*product_levels(tuples)) if prod else GO.from_labels(tuples)
+        go = g0.copy()
+        keep.append(('GO copied from', g0))
+    elif route == 'go_of_go':
+        g0 = GO.from_product(*product_levels(tuples)) if prod else GO.from_tree(tuples_to_tree(tuples))
+        go = GO(g0)
+        keep.append(('GO converted from', g0))
+    else:
+        raise ValueError(route)
+    keep.append(('copy taken before the growth', go.copy()))
+    keep.append(('static conversion taken before the growth', ST(go)))
+    return go, keep
+
+
+def check_unchanged(keep, hts, what):
+    """the kept objects still hold exactly the initial tuples (iteration, len, values, lookup of every tuple)"""
+    out = []
+    for name, ix in keep:
+        try:
+            got = [HT(t) for t in ix]
+            if got != hts or len(ix) != len(hts):
+                out.append(f'{what}: the {name} changed: {got} (len {len(ix)}) != {hts}')
+                continue
+            vals = [HT(tuple(r)) for r in ix.values]
+            if vals != hts:
+                out.append(f'{what}: values of the {name} changed: {vals}')
+            for i, t in enumerate(list(ix)):
+                if int(ix.loc_to_iloc(t)) != i:
+                    out.append(f'{what}: lookup in the {name}: {t!r} -> {ix.loc_to_iloc(t)} (position {i})')
+                    break
+        except Exception as ex:
+            out.append(f'{what}: reading the {name} raised {type(ex).__name__}: {ex}')
+    return out
+
+
+GROW_POOLS = {
+    's': ['a', 'b', 'c', 'd', 'e', 'f', 'g'],
+    'i': [1, 2, 3, 4, 5, 6, 7],
+    'f': [0.5, 1.5, 2.5, 3.5, 4.5, 5.5],
+}
+
+
+def rand_grow_history(rng, tuples, kinds, steps):
+    """Appends whose first new label sits at a chosen depth under the right-most path (what the guard allows), appends
+    under other (closed) parents and of held keys (must be refused), extends with new outer labels.  Tokens."""
+    depth = len(kinds)
+    pools = [GROW_POOLS[k] for k in kinds]
+    cur = list(tuples)
+    ops = []
+    for _ in range(steps):
+        r = rng.random()
+        if not cur:
+            key = tuple(rng.choice(pools[d]) for d in range(depth))
+            ops.append(['ap', tok(key)])
+            cur.append(key)
+            continue
+        last = cur[-1]
+        if r < 0.65:
+            js = list(range(depth))
+            rng.shuffle(js)
+            for j in js:
+                sib = {H(t[j]) for t in cur if HT(t[:j]) == HT(last[:j])}
+                fresh = [l for l in pools[j] if H(l) not in sib]
+                if fresh:
+                    key = tuple(last[:j]) + (rng.choice(fresh),) + tuple(rng.choice(pools[d]) for d in range(j + 1, depth))
+                    ops.append(['ap', tok(key)])
+                    cur.append(key)
+                    break
+        elif r < 0.85:
+            # a parent that is not on the right-most path, or a held key: must be refused, index unchanged
+            t = rng.choice(cur)
+            j = rng.randrange(1, depth)
+            key = tuple(t[:j]) + tuple(rng.choice(pools[d]) for d in range(j, depth))
+            ops.append(['ap', tok(key)])
+            hk = HT(key)
+            hcur = [HT(x) for x in cur]
+            if hk not in hcur and tree_ordered(hcur + [hk]):
+                cur.append(key)
+        else:
+            outer = {H(t[0]) for t in cur}
+            fresh = [l for l in pools[0] if H(l) not in outer]
+            if fresh:
+                o = fresh[0]
+                other = [(o,) + tuple(rng.choice(pools[d]) for d in range(1, depth - 1)) + (l,) for l in pools[depth - 1][:rng.randint(1, 2)]]
+                ops.append(['ex', [tok(t) for t in other]])
+                cur += other
+    return ops
+
+
 def is_product(hts):
     if not hts:
         return False
